@@ -32,7 +32,8 @@ func refLeaves(m map[string]interface{}, noattr bool, prefix, textKey string, do
 				p := it.path
 				_, isMap := v.(map[string]interface{})
 				_, isList := v.([]interface{})
-				if noattr && k == textKey && !isMap && !isList {
+				_, _ = isMap, isList
+				if noattr && k == textKey {
 					// final text-key segment omitted
 				} else if p == "" {
 					p = k
@@ -68,6 +69,9 @@ func vC09enum(spec vSpec) {
 	if vChoose(2) == 1 {
 		tk = []string{"#text", "_text"}[vChoose(2)] // the text key follows SetGlobalKeyMapPrefix
 		m[tk] = vNondetString(1, 1, "xy")
+		if vChoose(3) == 0 {
+			m[tk] = []interface{}{"p", vNondetString(1, 1, "xy")} // the text key may hold a list: the segment is dropped all the same
+		}
 		vCover("textkey")
 	}
 	SetGlobalKeyMapPrefix(tk[:1])
